@@ -1624,6 +1624,14 @@ class Tracer:
             for h in st.handlers:
                 q = entry.copy()
                 outs.extend(self.block(h.body, [q]))
+        elif st.finalbody and any(isinstance(n, ast.Call) for n in ast.walk(st.body[0])):
+            # `try: r = f(…) finally: …` without handlers: the first statement of the body raises
+            # (a `cdef … except NULL` function of the module, a Python call) before it had any
+            # effect; the `finally` block runs and the exception propagates
+            q = entry.copy()
+            q.events.append(('raise', 'propagated'))
+            q.done = True
+            outs.append(q)
         if st.finalbody:
             fin = []
             for q in outs:
